@@ -419,8 +419,8 @@ def check(ctx):
     # tests the private slot and silently skips the setter accepts `cmd > file | next`.
     from ..engine import inline, dtable as _dt
 
-    flat = inline.flatten(ctx.repo, c2s, depth=1, skip=("_redirect_streams", "_parse_redirects", "_flatten_cmd_redirects"))
-    pipe_ifs = [n for n in ast.walk(flat) if isinstance(n, ast.If) and isinstance(n.test, ast.Compare) and any(const_value(x) == "|" for x in [n.test.left] + n.test.comparators) and any("from_pipe" in unparse(c.func) for c in calls_in(n, local=False))]
+    flat_c2s = inline.flatten(ctx.repo, c2s, depth=1, skip=("_redirect_streams", "_parse_redirects", "_flatten_cmd_redirects"))
+    pipe_ifs = [n for n in ast.walk(flat_c2s) if isinstance(n, ast.If) and isinstance(n.test, ast.Compare) and any(const_value(x) == "|" for x in [n.test.left] + n.test.comparators) and any("from_pipe" in unparse(c.func) for c in calls_in(n, local=False))]
     if len(pipe_ifs) != 1:
         raise AnalysisError(f"{SP}:cmds_to_specs: expected one `redirect == '|'` wiring branch, found {len(pipe_ifs)}")
     n_paths = 0
